@@ -17,6 +17,9 @@ type countingClock struct {
 	mu      sync.Mutex
 	pending []time.Time // wake times of sleeping catch-up goroutines
 	woken   int
+	hold    bool       // ticks are being held back (the process is stalled as far as its ticker goes)
+	held    *time.Time // the one pending tick
+	heldOut chan time.Time
 }
 
 func (c *countingClock) Sleep(d time.Duration) {
@@ -70,4 +73,75 @@ func (c *countingClock) counts() (pending, woken int) {
 	c.mu.Lock()
 	defer c.mu.Unlock()
 	return len(c.pending), c.woken
+}
+
+// ---- a process stall, as the ticker sees it ----
+// Go's tickers (and the fake one) keep at most one pending tick, stamped with the time it was
+// generated, and drop the ones that follow until it is consumed. After a stall of the process the
+// consumer therefore receives a tick whose time stamp lies in the past. The wrapper reproduces
+// exactly that: while `hold` is set the first generated tick is kept and the later ones are
+// dropped; release hands the kept (stale) tick over.
+
+type heldTicker struct {
+	inner clock.Ticker
+	out   chan time.Time
+	c     *countingClock
+}
+
+func (h *heldTicker) Chan() <-chan time.Time { return h.out }
+func (h *heldTicker) Reset(d time.Duration)  { h.inner.Reset(d) }
+func (h *heldTicker) Stop()                  { h.inner.Stop() }
+
+func (h *heldTicker) pump() {
+	for nt := range h.inner.Chan() {
+		h.c.mu.Lock()
+		if h.c.hold {
+			if h.c.held == nil {
+				t := nt
+				h.c.held, h.c.heldOut = &t, h.out
+			}
+			h.c.mu.Unlock()
+			continue
+		}
+		h.c.mu.Unlock()
+		select {
+		case h.out <- nt:
+		default:
+		}
+	}
+}
+
+// NewTicker wraps the fake ticker so that ticks can be held back.
+func (c *countingClock) NewTicker(d time.Duration) clock.Ticker {
+	h := &heldTicker{inner: c.FakeClock.NewTicker(d), out: make(chan time.Time, 1), c: c}
+	go h.pump()
+	return h
+}
+
+// setHold starts (or ends) holding ticks back.
+func (c *countingClock) setHold(on bool) {
+	c.mu.Lock()
+	c.hold = on
+	if on {
+		c.held = nil
+	}
+	c.mu.Unlock()
+}
+
+// release ends the stall: the kept tick, if any, is delivered with its original time stamp.
+// It returns that time stamp (zero if no tick was pending).
+func (c *countingClock) release() time.Time {
+	c.mu.Lock()
+	c.hold = false
+	t, out := c.held, c.heldOut
+	c.held = nil
+	c.mu.Unlock()
+	if t == nil {
+		return time.Time{}
+	}
+	select {
+	case out <- *t:
+	default:
+	}
+	return *t
 }
